@@ -223,6 +223,63 @@ fn shard_seed(seed: u64, name: &str, shard: usize) -> [u8; 32] {
     out
 }
 
+// ---------------------------------------------------------------------------
+// Run budgets.  Checks are bounded by case counts; on the unchanged tree a quick run takes one to
+// two minutes.  Against a tree that hangs or crawls on many inputs every failing case (and every
+// shrink candidate) costs up to the CPU limit of a subprocess, and a quick run used to take more
+// than an hour.  Two process-wide budgets bound that:
+//  * a soft deadline: once it has passed no new generated case is started (the run is marked
+//    `truncated` in the evidence; what was explored until then is judged as usual) and shrinking
+//    stops at the smallest failing tape known so far;
+//  * a shrink budget: the wall time spent in shrink candidates, summed over all sub-checks.
+// Neither budget can turn a passing case into a failure or a failure into a pass: a skipped case
+// is counted as not run, a skipped shrink candidate only leaves the reproducer larger.
+// ---------------------------------------------------------------------------
+
+static SOFT_DEADLINE: Mutex<Option<Instant>> = Mutex::new(None);
+static SOFT_DEADLINE_S: AtomicU64 = AtomicU64::new(0);
+static SHRINK_BUDGET_MS: AtomicU64 = AtomicU64::new(u64::MAX);
+static SHRINK_SPENT_MS: AtomicU64 = AtomicU64::new(0);
+static CASES_NOT_STARTED: AtomicU64 = AtomicU64::new(0);
+static SHRINK_CANDIDATES_SKIPPED: AtomicU64 = AtomicU64::new(0);
+
+/// Set the process-wide budgets (called once from `main`; 0 = unlimited).
+pub fn set_budgets(soft_deadline_s: u64, shrink_budget_s: u64) {
+    if soft_deadline_s > 0 {
+        *SOFT_DEADLINE.lock().unwrap() = Some(Instant::now() + std::time::Duration::from_secs(soft_deadline_s));
+        SOFT_DEADLINE_S.store(soft_deadline_s, Ordering::Relaxed);
+    }
+    if shrink_budget_s > 0 {
+        SHRINK_BUDGET_MS.store(shrink_budget_s * 1000, Ordering::Relaxed);
+    }
+}
+
+pub fn past_deadline() -> bool {
+    match *SOFT_DEADLINE.lock().unwrap() {
+        Some(d) => Instant::now() >= d,
+        None => false,
+    }
+}
+
+fn shrink_budget_left() -> bool {
+    SHRINK_SPENT_MS.load(Ordering::Relaxed) < SHRINK_BUDGET_MS.load(Ordering::Relaxed) && !past_deadline()
+}
+
+fn budget_json() -> Value {
+    let b = SHRINK_BUDGET_MS.load(Ordering::Relaxed);
+    let (runs, slowest) = crate::binrun::run_stats();
+    json!({
+        "binary_runs": runs,
+        "slowest_binary_run_wall_ms": slowest,
+        "soft_deadline_s": SOFT_DEADLINE_S.load(Ordering::Relaxed),
+        "truncated_by_soft_deadline": CASES_NOT_STARTED.load(Ordering::Relaxed) > 0,
+        "cases_not_started_after_deadline": CASES_NOT_STARTED.load(Ordering::Relaxed),
+        "shrink_budget_s": if b == u64::MAX { 0 } else { b / 1000 },
+        "shrink_spent_s": SHRINK_SPENT_MS.load(Ordering::Relaxed) / 1000,
+        "shrink_candidates_skipped": SHRINK_CANDIDATES_SKIPPED.load(Ordering::Relaxed),
+    })
+}
+
 thread_local! {
     static LAST_BAD: RefCell<Option<Bad>> = const { RefCell::new(None) };
 }
@@ -291,11 +348,24 @@ where
                             // another shard already has a failure: do not start new cases
                             return Ok(());
                         }
+                        if !failed.get() && past_deadline() {
+                            CASES_NOT_STARTED.fetch_add(1, Ordering::Relaxed);
+                            return Ok(());
+                        }
+                        if failed.get() && !shrink_budget_left() {
+                            // keep the smallest failing tape known so far
+                            SHRINK_CANDIDATES_SKIPPED.fetch_add(1, Ordering::Relaxed);
+                            return Ok(());
+                        }
                         let rec = Rec::new(stats, !failed.get());
                         rec.eval(1);
+                        let t0 = Instant::now();
                         watchdog_enter(shard, &name, &tape);
                         let verdict = f(&tape, &rec);
                         watchdog_leave(shard);
+                        if failed.get() {
+                            SHRINK_SPENT_MS.fetch_add(t0.elapsed().as_millis() as u64, Ordering::Relaxed);
+                        }
                         match verdict {
                             Ok(()) => Ok(()),
                             Err(bad) => {
@@ -364,6 +434,10 @@ where
                     let i = next.fetch_add(1, Ordering::Relaxed) as usize;
                     if i >= items.len() {
                         break;
+                    }
+                    if past_deadline() {
+                        CASES_NOT_STARTED.fetch_add(1, Ordering::Relaxed);
+                        continue;
                     }
                     if let Err(bad) = f(i, &items[i]) {
                         out.lock().unwrap().push((i, bad));
@@ -609,6 +683,7 @@ pub fn finish(ctx: &Ctx, stats: &Stats, outcome: &Outcome, spec: EvidenceSpec, s
             coverage[k] = v.clone();
         }
     }
+    coverage["budgets"] = budget_json();
     let ev = json!({
         "property_id": ctx.id,
         "tier": ctx.tier.name(),
@@ -633,6 +708,13 @@ pub fn finish(ctx: &Ctx, stats: &Stats, outcome: &Outcome, spec: EvidenceSpec, s
         let p = write_replay(ctx, f);
         println!("VIOLATION property={} replay={}", ctx.id, p.display());
         println!("  check={} reason={}", f.check, f.reason.replace('\n', " | "));
+    }
+    if CASES_NOT_STARTED.load(Ordering::Relaxed) > 0 {
+        println!(
+            "NOTE: the soft deadline of {} s passed: {} generated cases were not started; the verdict covers what was explored until then",
+            SOFT_DEADLINE_S.load(Ordering::Relaxed),
+            CASES_NOT_STARTED.load(Ordering::Relaxed)
+        );
     }
     println!(
         "{} {} seed={} evaluations={} distinct_nontrivial={} violations={} wall={:.1}s",
